@@ -57,7 +57,10 @@ type machine struct {
 
 	cacheSize int
 	dirty     bool // delayed writes that were not flushed yet
-	stopBG    func()
+	// keys written through the delayed-write cache whose flush may still (re-)stamp
+	// Modified and a relative expiry: the flush saves the record, and saving sets them
+	pending map[string]bool
+	stopBG  func()
 
 	hist []string
 	// what the history contained (non-triviality and generator measurement)
@@ -69,6 +72,44 @@ type machine struct {
 	batchPut, purged, purgeNotImpl       bool
 	updated, evictionLikely, nestedQuery bool
 	steps                                int
+	bulkAllowed, bulkDone, bulkPurge1000 bool
+	// abandoned: one of portbase's one-second stall timers fired (the test process
+	// was not scheduled for that long); the rest of the case is not judged
+	abandoned bool
+}
+
+// stallTimeout recognises the errors of portbase's wall-clock guards: a batch that
+// is not fed for one second and a query whose consumer does not read for one
+// second. They say nothing about the property; under extreme machine load they
+// could fire, and then the case is dropped instead of judged.
+func stallTimeout(err error) bool {
+	if err == nil {
+		return false
+	}
+	m := err.Error()
+	return strings.Contains(m, "putmany unused for too long") || strings.Contains(m, "query timeout") || strings.Contains(m, "query buffer full, timeout")
+}
+
+type abandon struct{}
+
+func (s *machine) guard(f func(*rapid.T)) func(*rapid.T) {
+	return func(t *rapid.T) {
+		if s.abandoned {
+			return
+		}
+		defer func() {
+			if r := recover(); r != nil {
+				if _, ok := r.(abandon); ok {
+					s.abandoned = true
+					stats.Warn("a case was abandoned because a one-second stall timer of portbase fired (machine overloaded?)")
+					stats.Class("abandoned_stall_timeout")
+					return
+				}
+				panic(r)
+			}
+		}()
+		f(t)
+	}
 }
 
 func (s *machine) full(k string) string { return s.dbName + ":" + s.ns + k }
@@ -80,7 +121,7 @@ func (s *machine) logf(format string, a ...any) {
 // ---------------------------------------------------------------- set-up / tear-down
 
 func newMachine(t *rapid.T, cfg config) *machine {
-	s := &machine{cfg: cfg, m: newModel(), deletedKeys: map[string]bool{}, expiredKeys: map[string]bool{}}
+	s := &machine{cfg: cfg, m: newModel(), deletedKeys: map[string]bool{}, expiredKeys: map[string]bool{}, pending: map[string]bool{}}
 	var err error
 	if cfg.be == beBadger {
 		s.h, err = sharedBadger(cfg.shadow)
@@ -95,6 +136,9 @@ func newMachine(t *rapid.T, cfg config) *machine {
 	}
 	s.dbName = s.h.name
 	s.pool = genKeyPool(t, cfg.be == beFSTree)
+	if cfg.be.hasBatcher() {
+		s.bulkAllowed = rapid.IntRange(0, 9).Draw(t, "bulkCase") == 0
+	}
 
 	opts := &database.Options{Local: true, Internal: true}
 	if cfg.cache != cacheNone {
@@ -119,6 +163,7 @@ func newMachine(t *rapid.T, cfg config) *machine {
 				t.Fatalf("DelayedCacheWriter returned %v", err)
 			}
 			s.dirty = false
+			s.restamp(true)
 		}
 		stats.Class("delayed_background_writer")
 	}
@@ -257,6 +302,36 @@ func (s *machine) noteWrite(key string, m *mrec) {
 	}
 	if s.cfg.cache == cacheDelayed {
 		s.dirty = true
+		s.pending[key] = true
+	}
+}
+
+// restamp widens the acceptable Modified (and relative expiry) of the records
+// whose delayed write may have been flushed up to now: the flush saves the record
+// again, which sets Modified and refreshes a relative expiry.
+func (s *machine) restamp(clear bool) {
+	now := nowUnix()
+	for k := range s.pending {
+		r := s.m.recs[k]
+		if r != nil {
+			nm := *r
+			if nm.modified.hi < now {
+				nm.modified.hi = now
+			}
+			if nm.relTTL > 0 {
+				exp := append([]ival{}, nm.expires...)
+				for i := range exp {
+					if exp[i].lo > farPast2 && exp[i].hi < now+nm.relTTL {
+						exp[i].hi = now + nm.relTTL
+					}
+				}
+				nm.expires = exp
+			}
+			s.m.recs[k] = &nm
+		}
+		if clear {
+			delete(s.pending, k)
+		}
 	}
 }
 
@@ -289,6 +364,7 @@ func (s *machine) flush(t *rapid.T, why string) {
 		s.logf("DelayedCacheWriter(cancelled) (%s)", why)
 	}
 	s.dirty = false
+	s.restamp(s.stopBG == nil)
 	stats.Class("flush")
 }
 
@@ -297,6 +373,11 @@ func (s *machine) render() string {
 }
 
 func (s *machine) fail(t *rapid.T, format string, a ...any) {
+	for _, x := range a {
+		if err, ok := x.(error); ok && stallTimeout(err) {
+			panic(abandon{})
+		}
+	}
 	t.Fatalf("%s\nVIOLATION: %s", s.render(), fmt.Sprintf(format, a...))
 }
 
@@ -428,6 +509,9 @@ func (s *machine) noteRead(key string) {
 }
 
 func (s *machine) checkGet(t *rapid.T, key string, how string) {
+	if s.stopBG != nil {
+		s.restamp(false) // the background writer may have flushed at any time
+	}
 	want := s.m.recs[key]
 	got, err := s.db.Get(s.full(key))
 	s.noteRead(key)
@@ -701,6 +785,9 @@ func (s *machine) runQuery(t *rapid.T, q drawnQuery, what string) {
 	if err := it.Err(); err != nil {
 		s.fail(t, "%s: query (prefix %q, where %s) ended with error %v", what, q.prefix, q.c, err)
 	}
+	if s.stopBG != nil {
+		s.restamp(false)
+	}
 	must, may := s.expected(q)
 	for _, r := range recs {
 		k := strings.TrimPrefix(r.DatabaseKey(), s.ns)
@@ -831,6 +918,122 @@ func (s *machine) actMaintain(t *rapid.T) {
 	}
 }
 
+// actBulk stores many records under the prefix "bulk/" in one batch (several B-tree
+// pages in bbolt), purges a large part of them by condition (more than 1000 in
+// the thorough tier: bbolt purges in transactions of 1000), runs maintenance and
+// removes the rest. Every stage is compared with the model through a query.
+func (s *machine) actBulk(t *rapid.T) {
+	if !s.bulkAllowed || s.bulkDone {
+		t.Skip("no bulk in this case")
+	}
+	s.needClean(t)
+	s.bulkDone = true
+	sizes := []int{30, 120}
+	if stats.Thorough() {
+		sizes = []int{120, 1100, 1500, 2300}
+	}
+	n := rapid.SampledFrom(sizes).Draw(t, "bulkSize")
+	s.logf("Bulk: PutMany of %d records bulk/00000..; i%%5==0 expired, i%%5==1 expiring 2100", n)
+	put := s.db.PutMany(s.dbName)
+	type item struct {
+		key string
+		v   value
+		p   preset
+	}
+	items := make([]item, n)
+	t0 := nowUnix()
+	for i := 0; i < n; i++ {
+		it := item{key: fmt.Sprintf("bulk/%05d", i), p: preset{kind: "none"}}
+		it.v = encodeValue(reprTyped, content{I: int64(i), S: fmt.Sprintf("s%d", i%7), B: i%2 == 0, Tags: []string{}}, nil, nil)
+		switch i % 5 {
+		case 0:
+			it.p = preset{kind: "past", abs: farPast2}
+		case 1:
+			it.p = preset{kind: "future", abs: farFuture1}
+		}
+		r := newRecord(s.full(it.key), it.v)
+		it.p.apply(r)
+		if err := put(r); err != nil {
+			s.fail(t, "bulk PutMany put(%s) failed: %v", it.key, err)
+		}
+		items[i] = it
+	}
+	if err := put(nil); err != nil {
+		s.fail(t, "bulk PutMany finish failed: %v", err)
+	}
+	t1 := nowUnix()
+	for _, it := range items {
+		s.m.recs[it.key] = storedFresh(it.v, it.p, t0, t1, false)
+	}
+	s.hadExpiry = true
+	s.afterBypass()
+	s.batchPut = true
+
+	third := int64(n / 3)
+	sel := &cond{kind: cLeaf, sel: "I", op: query.GreaterThanOrEqual, i: third, arg: third}
+	s.logf("Bulk: Query prefix=\"bulk/\" where %s", sel)
+	s.runQuery(t, drawnQuery{prefix: "bulk/", c: sel}, "bulk")
+
+	if s.cfg.be.hasPurger() {
+		s.logf("Bulk: Purge prefix=\"bulk/\" where %s", sel)
+		q := drawnQuery{prefix: "bulk/", c: sel}
+		must, _ := s.expected(q)
+		cnt, err := s.db.Purge(context.Background(), query.New(s.dbName+":"+s.ns+"bulk/").Where(sel.toQuery()))
+		if err != nil {
+			s.fail(t, "bulk Purge failed after %d deletes: %v", cnt, err)
+		}
+		for k := range must {
+			nm := *s.m.recs[k]
+			nm.deleted = true
+			s.m.recs[k] = &nm
+		}
+		s.hadDelete = true
+		s.purged = true
+		if len(must) > 1000 {
+			s.bulkPurge1000 = true
+		}
+		s.afterBypass()
+		s.runQuery(t, drawnQuery{prefix: "bulk/"}, "bulk after purge")
+	}
+
+	s.logf("Bulk: MaintainRecordStates")
+	if err := database.MaintainRecordStates(context.Background()); err != nil {
+		s.fail(t, "MaintainRecordStates failed: %v", err)
+	}
+	for _, k := range s.m.visibleKeys() {
+		if _, err := s.h.inner.Get(s.ns + k); err != nil {
+			s.fail(t, "after maintenance the raw storage no longer holds the visible record %q: %v", k, err)
+		}
+	}
+	s.hadMaint = true
+	s.maintAfterDelete = true
+	s.runQuery(t, drawnQuery{prefix: "bulk"}, "bulk after maintenance")
+
+	// remove the rest
+	if s.cfg.be.hasPurger() {
+		s.logf("Bulk: Purge prefix=\"bulk/\"")
+		if _, err := s.db.Purge(context.Background(), query.New(s.dbName+":"+s.ns+"bulk/")); err != nil {
+			s.fail(t, "bulk Purge of the rest failed: %v", err)
+		}
+		s.afterBypass()
+	} else {
+		s.logf("Bulk: Delete every remaining bulk record")
+		for _, it := range items {
+			if s.m.recs[it.key].visible() {
+				if err := s.db.Delete(s.full(it.key)); err != nil {
+					s.fail(t, "Delete(%s) failed: %v", it.key, err)
+				}
+			}
+		}
+	}
+	for _, it := range items {
+		nm := *s.m.recs[it.key]
+		nm.deleted = true
+		s.m.recs[it.key] = &nm
+	}
+	s.runQuery(t, drawnQuery{prefix: "bulk/"}, "bulk after removal")
+}
+
 func (s *machine) actFlush(t *rapid.T) {
 	if s.cfg.cache != cacheDelayed {
 		t.Skip("no delayed writes")
@@ -890,10 +1093,10 @@ func (s *machine) final(t *rapid.T) {
 }
 
 func (s *machine) actions() map[string]func(*rapid.T) {
-	a := map[string]func(*rapid.T){"": s.check}
+	a := map[string]func(*rapid.T){"": s.guard(s.check)}
 	add := func(name string, weight int, f func(*rapid.T)) {
 		for i := 0; i < weight; i++ {
-			a[fmt.Sprintf("%s#%d", name, i)] = f
+			a[fmt.Sprintf("%s#%d", name, i)] = s.guard(f)
 		}
 	}
 	add("put", 4, func(t *rapid.T) { s.actPut(t, false) })
@@ -914,11 +1117,17 @@ func (s *machine) actions() map[string]func(*rapid.T) {
 	if s.cfg.cache != cacheNone {
 		add("clearcache", 1, s.actClearCache)
 	}
+	if s.bulkAllowed {
+		add("bulk", 2, s.actBulk)
+	}
 	return a
 }
 
 // record the case in the evidence
 func (s *machine) account() {
+	if s.abandoned {
+		return
+	}
 	cfg := s.cfg.String()
 	nontrivial := s.readAfterDelete || s.readAfterExpiry || s.queryNonBoundary || s.queryCond ||
 		((s.hadDelete || s.hadExpiry || s.hadMaint) && s.steps > 1)
@@ -942,6 +1151,8 @@ func (s *machine) account() {
 	addIf(s.updated, "update_via_get")
 	addIf(s.evictionLikely, "cache_smaller_than_keyspace")
 	addIf(s.steps >= 20, "history_ge_20_steps")
+	addIf(s.bulkDone, "bulk_batch")
+	addIf(s.bulkPurge1000, "purge_gt_1000")
 	stats.Case(cfg+"|"+strings.Join(s.hist, "|"), nontrivial, classes...)
 	if nontrivial && stats.WantSample(cfg) {
 		h := s.hist
@@ -957,5 +1168,8 @@ func runCase(t *rapid.T, cfg config) {
 	defer s.close()
 	defer s.account()
 	t.Repeat(s.actions())
-	s.final(t)
+	s.guard(s.final)(t)
+	if s.abandoned {
+		t.Skip("case abandoned: stall timeout")
+	}
 }
